@@ -369,6 +369,10 @@ pub fn builtin_avg(arr: Vec<f64>, onEmpty: Option<Thunk<Val>>) -> Result<Val> {
 
 #[builtin]
 pub fn builtin_remove_at(arr: ArrValue, at: i32) -> Result<ArrValue> {
+	// Out of range index removes nothing (negative indexes must not be treated as slice offsets from the end)
+	if at < 0 || at as usize >= arr.len() {
+		return Ok(arr);
+	}
 	let newArrLeft = arr.clone().slice(None, Some(at), None);
 	let newArrRight = arr.slice(Some(at + 1), None, None);
 
